@@ -264,7 +264,8 @@ def run(ck, prog, ctx):
         for t in sets:
             for i in ("0", "1", "2"):
                 at = pvn.of_operand(hv, t.args[1], (("f", i, "tuple"),))
-                if any(a[0] == "call" and a[1].endswith("from_be_bytes") for a in at):
+                # ... decoded with from_be_bytes, or (a single byte) read straight out of the input slice
+                if any(a[0] == "call" and a[1].endswith("from_be_bytes") for a in at) or any(a[0] == "param" and a[1] == hv.id and re.search(r"\[u8\]|Bytes<", hv.locals[a[2]]["s"]) for a in at):
                     tup.add(i)
         if not tup and sets:
             # the decoding may sit in a helper whose result is handed to set_hpo_version: inlined provenance
